@@ -145,7 +145,7 @@ def parse_assumptions(out):
     for block in re.split(r"\n(?=Axioms:)", out):
         if not block.startswith("Axioms:"):
             continue
-        for m in re.finditer(r"^([A-Za-z_][\w\.']*)\s*:", block[len("Axioms:"):], re.M):
+        for m in re.finditer(r"^([A-Za-z_][\w\.']*)\s*(?::|$)", block[len("Axioms:"):], re.M):
             axioms.add(m.group(1))
     return sorted(axioms), closed
 
